@@ -713,6 +713,7 @@ class TorConfig:
         else:
             if not any([socks_config in (port, _socksport_address(port)) for port in self.SocksPort]):
                 # need to configure Tor
+                was_pending = 'SocksPort' in self.unsaved
                 self.SocksPort.append(socks_config)
                 try:
                     yield self.save()
@@ -721,6 +722,10 @@ class TorConfig:
                     # must not find it "already configured"
                     if socks_config in self.SocksPort:
                         self.SocksPort.remove(socks_config)
+                    if not was_pending:
+                        # ...and nothing is waiting to be saved (a
+                        # left-over entry would shadow later edits)
+                        self.unsaved.pop('SocksPort', None)
                     extra = ''
                     if socks_config.startswith('unix:'):
                         # XXX so why don't we check this for the
